@@ -71,6 +71,7 @@ PROPS = {
                 {"harness": RT + "c09_allocate_monotone_in_limit", "fn": "src/runtime.rs :: Runtime::allocate"},
                 {"harness": RT + "c09_managed_error_new_and_drop", "fn": "src/xvalue.rs :: ManagedXError::{new, drop}"},
             ]},
+            {"kind": "verus", "unit": "size"},
         ],
         "unreached": [],
         "assumptions": [],
@@ -202,9 +203,9 @@ CLAIMS = {
     },
     "C09": {
         "engine": "kani",
-        "technique": "contract-based deductive verification: Kani (CBMC) loop-free full-domain harnesses in contract form on Runtime::{allocate, deallocate, can_allocate_by}",
-        "text": "The accounting primitives are proved against one-step contracts for every limit, accounted size and request: Ok adds exactly the size and stays within the limit, Err leaves the total unchanged, deallocate returns exactly the size, allocate-then-drop is the identity, and raising the limit never turns Ok into Err.",
-        "note": "Decides the primitives only: the size model of values (dyn_size impls), that every container goes through ManagedXValue::new, and the natives' pre-flight checks are unreached. Trusted: Kani/CBMC, in-crate build substitutions.",
+        "technique": "contract-based deductive verification: Kani (CBMC) loop-free full-domain harnesses in contract form on Runtime::{allocate, deallocate, can_allocate_by}; Verus contracts on the real text of XValue::size and FencedString::size",
+        "text": "The accounting primitives are proved against one-step contracts for every limit, accounted size and request: Ok adds exactly the size and stays within the limit, Err leaves the total unchanged, deallocate returns exactly the size, allocate-then-drop is the identity, and raising the limit never turns Ok into Err. The accounted size of a value (XValue::size) is proved to be size_of::<XValue>() plus its payload: the bytes of a string's buffer plus its character index, one word per struct field, the reported size of a big integer or native value.",
+        "note": "Decides the primitives and the size function of XValue/FencedString: the dyn_size/full_size impls of native values, that every container goes through ManagedXValue::new, and the natives' pre-flight checks are unreached. Trusted: Kani/CBMC, in-crate build substitutions.",
     },
     "C11": {
         "engine": "vx+verus",
